@@ -299,19 +299,32 @@ func RunC20(ctx *core.Ctx) *core.Violation {
 	// part of the event log: events are emitted in a fixed order after the phases.
 	interFirst := ctx.Env["fresh"] == "1"
 	solo1 := make([][]byte, n)
+	// caller-owned memory of every workload of every phase, checked when the phase is over and
+	// again at the end of the run: it must still be as its owner left it
+	mem := make([]memRec, 3*n)
+	memViol := ""
+	checkMem := func(when string, upto int) {
+		for k := 0; k < upto && memViol == ""; k++ {
+			if a, sz := mem[k].changed(); a >= 0 {
+				i := k % n
+				memViol = fmt.Sprintf("task %d (%s on %q, %s phase): an array of %d bytes that this caller had handed to the library was written to after the caller was done with it (noticed %s)", i, wlNames[ins[i].kind], clipN(ins[i].data, 60), [...]string{"first solo", "interleaved", "second solo"}[k/n], sz, when)
+			}
+		}
+	}
 	runSolo1 := func() {
 		for i := range ins {
-			solo1[i] = runWorkload(ins[i])
+			solo1[i] = runWorkloadRec(ins[i], nil, &mem[i])
 			if bytes.HasPrefix(lastLine(solo1[i]), []byte("PANIC")) {
 				ctx.Count("probe_workload_panics")
 			}
 		}
+		checkMem("after the first solo phase", n)
 	}
 	inter := make([][]byte, n)
 	bodies := make([]func(), n)
 	for i := range ins {
 		i := i
-		bodies[i] = func() { inter[i] = runWorkloadAfter(ins[i], decoy1[i]) }
+		bodies[i] = func() { inter[i] = runWorkloadRec(ins[i], decoy1[i], &mem[n+i]) }
 	}
 	if !interFirst {
 		runSolo1()
@@ -331,6 +344,14 @@ func RunC20(ctx *core.Ctx) *core.Violation {
 	if sr.Stuck != "" {
 		panic("harness: scheduler watchdog: " + sr.Stuck)
 	}
+	if sr.Stuck == "" && !sr.Deadlock {
+		for k := n; k < 2*n && memViol == ""; k++ { // (the first solo phase may not have run yet)
+			if a, sz := mem[k].changed(); a >= 0 {
+				i := k - n
+				memViol = fmt.Sprintf("task %d (%s on %q, interleaved phase): an array of %d bytes that this caller had handed to the library was written to after the caller was done with it (noticed after the interleaved phase)", i, wlNames[ins[i].kind], clipN(ins[i].data, 60), sz)
+			}
+		}
+	}
 	if interFirst {
 		runSolo1()
 		ctx.Count("probe_interleaved_phase_first")
@@ -346,7 +367,10 @@ func RunC20(ctx *core.Ctx) *core.Violation {
 	}
 	solo2 := make([][]byte, n)
 	for i := n - 1; i >= 0; i-- {
-		solo2[i] = runWorkloadAfter(ins[i], decoy2[i])
+		solo2[i] = runWorkloadRec(ins[i], decoy2[i], &mem[2*n+i])
+	}
+	if !sr.Deadlock {
+		checkMem("at the end of the run", 3*n)
 	}
 	after := pkgState()
 
@@ -383,6 +407,9 @@ func RunC20(ctx *core.Ctx) *core.Violation {
 		if !bytes.Equal(solo1[i], solo2[i]) {
 			return ctx.Viol("C20/transcript-depends-on-history", "workload="+wlNames[ins[i].kind], "task %d (%s on %q): result depends on what ran before in the process: %s", i, wlNames[ins[i].kind], clipN(ins[i].data, 60), firstDiff(solo1[i], solo2[i]))
 		}
+	}
+	if memViol != "" {
+		return ctx.Viol("C20/caller-memory-written-after-return", facts, "%s", memViol)
 	}
 	if before != after {
 		return ctx.Viol("C20/package-state-changed", facts, "exported package-level state of the library changed during the run")
